@@ -40,3 +40,17 @@ func (nd *KVNode) VerifClose() { nd.sm.Close() }
 
 // VerifSetReady marks a namespace node ready without starting raft.
 func (nn *NamespaceNode) VerifSetReady() { atomic.StoreInt32(&nn.ready, 1) }
+
+// VerifRegisterWaiter registers a waiter for a request id the way the proposing leader
+// does and returns a function reporting what the apply path triggered for it.
+func (nd *KVNode) VerifRegisterWaiter(id uint64) func() (interface{}, bool) {
+	wr := nd.w.Register(id)
+	return func() (interface{}, bool) {
+		select {
+		case <-wr.WaitC():
+			return wr.GetResult(), true
+		default:
+			return nil, false
+		}
+	}
+}
